@@ -2,6 +2,8 @@
 use common::Rng;
 
 fn q_of(rf: u8) -> u64 { rf as u64 / 2 + 1 }
+/// a coordinator sends ONE confirmation count per transaction: q for the replicas of the quorum, more for late ones
+fn cnt_of(rf: u8, t: u64) -> u64 { let q = q_of(rf); q + t % ((rf as u64).max(q) - q + 1) }
 
 /// a coordinator's history: transactions 1.. with contiguous assigned sequences from n0
 struct Hist { txs: Vec<(u64, u64, u64)> } // (tx, seq, k)
@@ -19,7 +21,7 @@ fn hist(rng: &mut Rng, n0: u64, m: u64) -> Hist {
 /// family rep: X as a replica under an arbitrary delivery order, duplicates, conflicts, stale / foreign / malformed
 /// writes, confirmations (good and bad) and the node's own failed-coordinator appends
 fn gen_rep(rng: &mut Rng, rf: u8, big: bool) -> String {
-    let q = q_of(rf);
+    let _q = q_of(rf);
     let n0 = rng.range(1, 3);
     let m = if big { rng.range(5, 9) } else { rng.range(2, 5) };
     let h = hist(rng, n0, m);
@@ -49,7 +51,7 @@ fn gen_rep(rng: &mut Rng, rf: u8, big: bool) -> String {
         // confirmations of something already sent
         if rng.chance(1, 2) {
             let (t2, s2, k2) = h.txs[*rng.pick(&sent)];
-            let cnt = rng.range(q, (rf as u64).max(q));
+            let cnt = cnt_of(rf, t2);
             let v = match rng.below(9) { 0 => "i", 1 => "s", 2 => "n", _ => "g" };
             let s3 = if rng.chance(1, 8) && k2 > 1 { s2 + 1 } else { s2 };                   // wrong sequence: multi-event only
             ops.push(format!("xc,{t2},{s3},{k2},{cnt},{v}"));
@@ -58,14 +60,14 @@ fn gen_rep(rng: &mut Rng, rf: u8, big: bool) -> String {
         if rng.chance(1, 3) { ops.push("b".into()); }
     }
     // confirm the rest (mostly), so the watermark moves
-    for &(t, s, k) in &h.txs { if rng.chance(2, 3) { ops.push(format!("xc,{t},{s},{k},{},g", rng.range(q, (rf as u64).max(q)))); } }
+    for &(t, s, k) in &h.txs { if rng.chance(2, 3) { ops.push(format!("xc,{t},{s},{k},{},g", cnt_of(rf, t))); } }
     ops.push("b".into());
     format!("n {rf} {} {n0} {n0} {}", rng.range(1, 4), ops.join(" "))
 }
 
 /// family sync: Y catches up from X (real PartitionSyncRequest / Response), possibly after diverging
 fn gen_sync(rng: &mut Rng, rf: u8) -> String {
-    let q = q_of(rf);
+    let _q = q_of(rf);
     let n0x = rng.range(1, 4);
     let n0y = rng.range(1, n0x);
     let m = rng.range(2, 5);
@@ -75,7 +77,7 @@ fn gen_sync(rng: &mut Rng, rf: u8) -> String {
     let conf = match rng.below(4) { 0 => h.txs.len(), 1 => 0, _ => rng.below(h.txs.len() as u64 + 1) as usize };
     for (i, &(t, s, k)) in h.txs.iter().enumerate() {
         ops.push(format!("xr,{t},{s},{k},-"));
-        if i < conf || rng.chance(1, 6) { ops.push(format!("xc,{t},{s},{k},{},g", rng.range(q, (rf as u64).max(q)))); }
+        if i < conf || rng.chance(1, 6) { ops.push(format!("xc,{t},{s},{k},{},g", cnt_of(rf, t))); }
     }
     // Y: maybe its own unconfirmed coordinator append (divergence), maybe a restart, maybe some writes in order
     let mut ynext = n0y;
@@ -97,9 +99,9 @@ fn gen_sync(rng: &mut Rng, rf: u8) -> String {
     ops.push(format!("yr,{t},{s},{k},-"));
     for _ in 0..rng.below(3) {
         match rng.below(4) {
-            0 => { let (t2, s2, k2) = h.txs[rng.below(h.txs.len() as u64) as usize]; ops.push(format!("xc,{t2},{s2},{k2},{},g", rng.range(q, (rf as u64).max(q)))); }
+            0 => { let (t2, s2, k2) = h.txs[rng.below(h.txs.len() as u64) as usize]; ops.push(format!("xc,{t2},{s2},{k2},{},g", cnt_of(rf, t2))); }
             1 => { let (t2, s2, k2) = h.txs[rng.below(h.txs.len() as u64) as usize]; ops.push(format!("yr,{t2},{s2},{k2},-")); }
-            2 => { for &(t2, s2, k2) in &h.txs { ops.push(format!("xc,{t2},{s2},{k2},{q},g")); } }
+            2 => { for &(t2, s2, k2) in &h.txs { ops.push(format!("xc,{t2},{s2},{k2},{},g", cnt_of(rf, t2))); } }
             _ => ops.push("b".into()),
         }
     }
@@ -129,7 +131,7 @@ fn gen_exec(rng: &mut Rng, rf: u8) -> String {
 
 /// family restart: X loses its memory (ResetCluster) in the middle of a history
 fn gen_restart(rng: &mut Rng, rf: u8) -> String {
-    let q = q_of(rf);
+    let _q = q_of(rf);
     let n0 = rng.range(1, 2);
     let m = rng.range(2, 5);
     let h = hist(rng, n0, m);
@@ -142,7 +144,7 @@ fn gen_restart(rng: &mut Rng, rf: u8) -> String {
             ops.push("xR".into());
         }
         ops.push(format!("xr,{t},{s},{k},-"));
-        if rng.chance(1, 2) { ops.push(format!("xc,{t},{s},{k},{},g", rng.range(q, (rf as u64).max(q)))); }
+        if rng.chance(1, 2) { ops.push(format!("xc,{t},{s},{k},{},g", cnt_of(rf, t))); }
         if rf == 1 && rng.chance(1, 3) { ops.push(format!("xe,{},1,-", 400 + i)); break; }
     }
     ops.push("b".into());
